@@ -339,6 +339,27 @@ func genEdgeListEq(r *rand.Rand, w *ndWriter, sid *int, n int) {
 	}
 	emitEdgeEq(w, sid, &sbom.Edge{From: "a", To: []string{"b", "c"}}, &sbom.Edge{From: "a", To: []string{"b+c"}}, "attack")
 	emitEdgeEq(w, sid, &sbom.Edge{From: "a", Type: 5, To: []string{"b"}}, &sbom.Edge{From: "a:contains:b", Type: 5}, "attack")
+	// lists beyond any size threshold: equal, and differing in one attribute of a node near the end / in the middle
+	for _, size := range []int{150, 257} {
+		big := &sbom.NodeList{}
+		for k := 0; k < size; k++ {
+			big.Nodes = append(big.Nodes, &sbom.Node{Id: fmt.Sprintf("n%d", k), Name: "same", Version: fmt.Sprint(k % 7)})
+			if k > 0 {
+				big.Edges = append(big.Edges, &sbom.Edge{Type: 5, From: fmt.Sprintf("n%d", k-1), To: []string{fmt.Sprintf("n%d", k)}})
+			}
+		}
+		big.RootElements = []string{"n0"}
+		emitListEq(w, sid, big, clone(big), "big-identical")
+		emitListEq(w, sid, big, shuffled(r, big), "big-permuted")
+		for _, at := range []int{size - 1, size - 3, size / 2, 0} {
+			c := clone(big)
+			c.Nodes[at].Name = "different"
+			emitListEq(w, sid, big, c, fmt.Sprintf("big-differs-at-%d", at))
+		}
+		c := clone(big)
+		c.Edges[len(c.Edges)-1].To = []string{"n0"}
+		emitListEq(w, sid, big, c, "big-differs-last-edge")
+	}
 	o := listOpts{ids: idPool(4), rich: 0.3, types: edgeTypes2, maxNodes: 4}
 	for i := 0; i < n; i++ {
 		o.ill = i%3 == 0
